@@ -139,3 +139,8 @@ vp_proof! {
         vp_reached!();
     }
 }
+
+// NOTE: OneHotEncoder::{fit, transform} end to end was tried once more during the build with everything that feeds the hash
+// table made concrete (concrete category codes, RandomState stubbed by fixed keys; only the plain column and the order of the
+// categorical indices symbolic): symbolic execution of hashbrown + SipHash did not finish in 25 min.  std::collections::HashMap
+// stays out of reach (DESIGN R7); the seeded change C18-2 (index sort moved behind the per-column fitting loop) is therefore missed.
